@@ -85,6 +85,43 @@ def build_asan():
     return True
 
 
+def run_miri(tier):
+    """Miri (griddle's cfg(miri): R = 4, generic 8-wide groups): defect scripts and short seeded runs.
+    Returns (entries, findings); entries are ordinary trace entries that get validated like the others."""
+    outdir = os.path.join(WORK, "traces", "miri-" + repo_key())
+    os.makedirs(outdir, exist_ok=True)
+    env = dict(ENV, MIRIFLAGS="-Zmiri-disable-isolation -Zmiri-ignore-leaks", RUSTFLAGS="--cfg griddle_verif --check-cfg cfg(griddle_verif)")
+    base = ["cargo", "+nightly", "miri", "run", "--offline", "--target-dir", "target-miri", "--"]
+    jobs = []
+    for fn, el in PLAN.DEFECT_SCRIPTS:
+        p = os.path.join(outdir, fn.replace(".ndjson", ".miri.ndjson"))
+        jobs.append((p, el, base + ["run", "--elem", el, "--script", os.path.join(VERIF, "scripts", "defects", fn), "--out", p]))
+    n = 2 if tier == "quick" else 8
+    for i in range(n):
+        p = os.path.join(outdir, "rand%d.miri.ndjson" % i)
+        flags = [[], ["--two"], ["--set", "--two"], ["--entry"]][i % 4]
+        jobs.append((p, "heap", base + ["random", "--elem", "heap", "--seed", str(100 + i), "--events", "60", "--runs", "2"] + flags + ["--out", p]))
+    p = os.path.join(outdir, "faults.miri.ndjson")
+    jobs.append((p, "heap", base + ["faults", "--elem", "heap", "--seed", "5", "--states", "3" if tier == "quick" else "12", "--out", p]))
+    # build once (serial), then run in parallel
+    r = subprocess.run(["cargo", "+nightly", "miri", "run", "--offline", "--target-dir", "target-miri", "--", "help"], cwd=HARNESS, env=env,
+                       stdout=subprocess.PIPE, stderr=subprocess.STDOUT, text=True)
+    if "error: no such command" in r.stdout or "is not installed" in r.stdout:
+        return None, []
+    entries, findings = [], []
+    with cf.ThreadPoolExecutor(max_workers=6) as ex:
+        futs = [(p, el, cmd, ex.submit(subprocess.run, ["timeout", "1500"] + cmd, cwd=HARNESS, env=env, stdout=subprocess.PIPE,
+                                       stderr=subprocess.STDOUT, text=True)) for p, el, cmd in jobs]
+        for p, el, cmd, f in futs:
+            r = f.result()
+            ub = "Undefined Behavior" in r.stdout or "error: " in r.stdout and "unsupported operation" not in r.stdout and r.returncode != 0
+            entries.append(dict(path=p, status="ok" if r.returncode == 0 else "miri(%d)" % r.returncode, suite="miri", profile="miri",
+                                elem=el, log=r.stdout[-1500:], cmd=" ".join(cmd)))
+            if r.returncode != 0:
+                findings.append(dict(trace=p, elem=el, report=r.stdout[-1200:], ub=bool(ub)))
+    return entries, findings
+
+
 def run_asan(entries, limit):
     """Re-runs the recording commands of `entries` with the ASan binary. Returns list of findings."""
     out = []
@@ -430,7 +467,7 @@ def run_check(pid, tier, seed, replay):
             traces += record_suite(s, tier, seed, key)
     # crashes and hangs of the driver are data
     for t in traces:
-        if t["status"] != "ok":
+        if t["status"] != "ok" and t.get("suite") != "miri":
             prop = "C05" if t["status"].startswith("crash") else "C04"
             if pid == prop:
                 violations.append(dict(trace=t["path"], line=None, monitor="driver_" + t["status"], op="?", elem=t["elem"],
@@ -450,6 +487,16 @@ def run_check(pid, tier, seed, replay):
             notes.append("ASan: %d recordings re-executed, %d reports" % (len(asan_runs), sum(1 for a in asan_runs if not a["ok"])))
         else:
             notes.append("ASan build unavailable: sanitizer runtime skipped")
+    # Miri runtime (C05, thorough tier): a different instance of the parametric specs (R = 4, GW = 8)
+    if plan.get("miri") and not replay and (tier == "thorough" or os.environ.get("VERIF_MIRI")):
+        ents, finds = run_miri(tier)
+        if ents is None:
+            notes.append("Miri unavailable: skipped")
+        else:
+            traces += [e for e in ents if e["status"] == "ok"]
+            for f_ in finds:
+                violations.append(dict(trace=f_["trace"], line=None, monitor="miri_report", op="?", elem=f_["elem"], detail=f_["report"][-600:]))
+            notes.append("Miri: %d recordings executed (R=4, GW=8), %d reports" % (len(ents), len(finds)))
     # validate (parallel)
     jobs = []
     with cf.ThreadPoolExecutor(max_workers=8) as ex:
